@@ -151,8 +151,8 @@ def arith(op, a, b):
         raise Err("non-numeric operand")
     rank = max(na[0], nb[0])
     x, y = na[1], nb[1]
-    if rank == 2:
-        STATS["float_arithmetic"] += 1
+    if rank == 2 and op in ("*", "/"):
+        STATS["float_arithmetic"] += 1     # listed deviation: multiplying/dividing xsd:float answers xsd:double (adding and subtracting keep xsd:float)
     if rank >= 2:
         x, y = float(x), float(y)
         if op == "/" and y == 0:
@@ -237,29 +237,38 @@ def ev(e, mu, ctx):
         c = ebv(ev(e[1], mu, ctx))
         return ev(e[2] if c else e[3], mu, ctx)
     if t in ("in", "notin"):
+        # listed deviation (error_inside_IN_list): the engine turns a computed error into "no match" and lets an unbound variable in the list
+        # spoil a match; counted only where that changes the answer
         try:
             lhs = ev(e[1], mu, ctx)
         except Err:
-            STATS["error_inside_IN_list"] += 1
+            if e[1][0] != "var": STATS["error_inside_IN_list"] += 1
             raise
-        err = False; found = False
+        err = False; found = False; bare_err = False; computed_err = False
         for x in e[2]:
             try:
                 if compare("=", lhs, ev(x, mu, ctx)):
-                    found = True; break
+                    found = True
             except Err:
                 err = True
-                STATS["error_inside_IN_list"] += 1
+                if x[0] == "var": bare_err = True
+                else: computed_err = True
+        if (found and bare_err) or (not found and computed_err): STATS["error_inside_IN_list"] += 1
         if found: return TRUE if t == "in" else FALSE
         if err: raise Err("IN with error")
         return FALSE if t == "in" else TRUE
     if t == "call":
         name = e[1]
-        try:
-            args = [ev(x, mu, ctx) for x in e[2:]]
-        except Err:
-            STATS["error_through_function_argument"] += 1
-            raise
+        args = []
+        for x in e[2:]:
+            try:
+                args.append(ev(x, mu, ctx))
+            except Err:
+                # listed deviation (error_through_function_argument): isNumeric always, isIRI/isBlank/isLiteral/sameTerm for a computed
+                # error (not for a bare unbound variable) answer false instead of raising; STR/LANG/DATATYPE raise as they should
+                if name == "isNumeric" or (name in ("isIRI", "isBlank", "isLiteral", "sameTerm") and x[0] != "var"):
+                    STATS["error_through_function_argument"] += 1
+                raise
         a = args[0]
         if name == "isIRI": return TRUE if isinstance(a, URIRef) else FALSE
         if name == "isBlank": return TRUE if isinstance(a, BNode) else FALSE
